@@ -1,4 +1,4 @@
-CLAIM = False
+CLAIM = True
 from props.common import conc
 
 
